@@ -271,7 +271,7 @@ pub fn c04(tier: Tier) -> i32 {
         if n >= 2 {
             alphabet.push(Op::K(n - 1));
         }
-        Scenario { data: vec![], env: env.clone(), alphabet, positions: false, iterate_failed_sets: false, policy_clauses: false, explore_post: false, strict_after_buffer_limit: false }
+        Scenario { data: vec![], env: env.clone(), alphabet, positions: false, iterate_failed_sets: false, policy_clauses: false, explore_post: false, strict_after_buffer_limit: false, post_err_fields: false }
     });
     run_hist(HistCfg {
         prop: "C04",
@@ -295,7 +295,7 @@ pub fn c05(tier: Tier) -> i32 {
         for i in 0..=n {
             alphabet.push(Op::K(i));
         }
-        Scenario { data: vec![], env: env.clone(), alphabet, positions: true, iterate_failed_sets: false, policy_clauses: false, explore_post: false, strict_after_buffer_limit: false }
+        Scenario { data: vec![], env: env.clone(), alphabet, positions: true, iterate_failed_sets: false, policy_clauses: false, explore_post: false, strict_after_buffer_limit: false, post_err_fields: false }
     });
     // (b') the same seeks under a policy that never lets the buffer grow, for capacities that hold
     // every record: no read after a seek may need (or ask for) growth, so none may fail with BufferLimit
@@ -317,7 +317,7 @@ pub fn c05(tier: Tier) -> i32 {
                 for i in 0..nrec {
                     alphabet.push(Op::K(i as u8));
                 }
-                scenarios.push(Scenario { data: data.clone(), env, alphabet, positions: true, iterate_failed_sets: false, policy_clauses: true, explore_post: false, strict_after_buffer_limit: false });
+                scenarios.push(Scenario { data: data.clone(), env, alphabet, positions: true, iterate_failed_sets: false, policy_clauses: true, explore_post: false, strict_after_buffer_limit: false, post_err_fields: false });
             }
         }
     }
@@ -342,13 +342,17 @@ pub fn c05(tier: Tier) -> i32 {
                     for i in 0..nrec.min(3) {
                         alphabet.push(Op::K(i as u8));
                     }
-                    scenarios.push(Scenario { data: data.clone(), env, alphabet, positions: true, iterate_failed_sets: false, policy_clauses: false, explore_post: true, strict_after_buffer_limit: false });
+                    scenarios.push(Scenario { data: data.clone(), env, alphabet, positions: true, iterate_failed_sets: false, policy_clauses: false, explore_post: true, strict_after_buffer_limit: false, post_err_fields: false });
                 }
             }
         }
     }
     let n_c = scenarios.len() - n_b;
     let n = n_b;
+    let (d_tot, d_rule) = c05d(tier);
+    let mut a_tot = a_tot;
+    a_tot.merge(d_tot);
+    let a_rule = format!("{} ; (d) {}", a_rule, d_rule);
     let code = run_hist_with(HistCfg {
         prop: "C05",
         tier,
@@ -360,6 +364,134 @@ pub fn c05(tier: Tier) -> i32 {
         clauses: None,
     }, Some(a_tot));
     code
+}
+
+/// C05 part (d): seeks to the records that lie BEHIND a format error. Sequential reading never gets
+/// there (the error ends the stream), so these records are no targets of the history exploration; a
+/// position taken from an index, or the position of a record of the valid tail, is one all the same.
+/// Every sequence of {next, read_record_set, seek(record j of the tail)} up to a depth is run on the
+/// real reader from its initial state (so seeks before and after the error was reported, repeated and
+/// backwards); after a seek the reads must deliver the tail from record j with true positions.
+fn c05d(tier: Tier) -> (Totals, String) {
+    let depth = if tier == Tier::Quick { 5 } else { 6 };
+    let mut inputs: Vec<(Format, Vec<u8>, Vec<u8>)> = vec![];
+    for format in [Format::Fasta, Format::Fastq] {
+        let prefixes: Vec<Vec<u8>> = match format {
+            Format::Fasta => vec![b"x\n".to_vec(), b"\n\nxy\n".to_vec(), b"\r\n;c\r\n".to_vec(), b"\n\n\n\n\nx\n".to_vec()],
+            Format::Fastq => vec![b"@a\nAC\n-\nII\n".to_vec(), b"@a\nAC\n+\nI\n".to_vec(), b"x\nAC\n+\nII\n".to_vec(), b"@a\r\nA\r\n+\r\nIII\r\n".to_vec()],
+        };
+        let tails: Vec<Vec<u8>> = rec_files(format, if tier == Tier::Quick { 2 } else { 3 }, &[0], &[0], false)
+            .iter()
+            .filter(|f| tier == Tier::Thorough || f.final_term)
+            .map(|f| f.bytes())
+            .collect();
+        for p in &prefixes {
+            for t in &tails {
+                inputs.push((format, p.clone(), t.clone()));
+            }
+        }
+    }
+    let n_inputs = inputs.len();
+    set_describe(None);
+    let tot = par_sweep(n_inputs as u64, 2, |idx, l| {
+        let (format, prefix, tail) = &inputs[idx as usize];
+        let format = *format;
+        let mut data = prefix.clone();
+        data.extend_from_slice(tail);
+        let data = std::rc::Rc::new(data);
+        let rs = reference(format, tail);
+        if rs.err.is_some() || rs.recs.is_empty() {
+            return;
+        }
+        let (dl, db) = (prefix.iter().filter(|&&b| b == b'\n').count() as u64, prefix.len() as u64);
+        let nrec = rs.recs.len();
+        let nops = 2 + nrec;
+        let mut caps: Vec<usize> = (3..=data.len() + 2).collect();
+        caps.push(65536);
+        for cap in caps {
+            let env = Env { format, cap, chunk: Chunk::All, int: IntPat::None, policy: PolKind::Std, fault: None };
+            // all sequences of exactly `depth` operations (their prefixes are checked on the way)
+            let total = nops.pow(depth as u32);
+            for code in 0..total {
+                let mut c = code;
+                let ops: Vec<usize> = (0..depth).map(|_| { let o = c % nops; c /= nops; o }).collect();
+                let mut r = open(data.clone(), &env);
+                r.sh().api_budget.set(crate::drive::api_budget(data.len(), cap));
+                // cur = Some(j): the next record to be read is tail record j (None before the first seek)
+                let mut cur: Option<usize> = None;
+                let mut problem: Option<(String, String)> = None;
+                for (step, &op) in ops.iter().enumerate() {
+                    l.count("transitions", 1);
+                    match op {
+                        0 => {
+                            let it = r.next();
+                            let pos = r.position();
+                            match (&it, cur) {
+                                (Item::Panic(m), _) => problem = Some(("panic".into(), format!("next() panicked: {}", m))),
+                                (_, None) => {}
+                                (Item::Rec(got), Some(j)) if j < nrec => {
+                                    let want = &rs.recs[j];
+                                    if !got.same(&want.rec) {
+                                        problem = Some(("record-after-seek".into(), format!("next() returned {:?}, expected record {} of the tail {:?}", got, j, want.rec)));
+                                    } else if pos != Some((want.line + dl, want.byte + db)) {
+                                        problem = Some(("position-after-seek".into(), format!("position() = {:?} after record {} of the tail, true location ({}, {})", pos, j, want.line + dl, want.byte + db)));
+                                    }
+                                    cur = Some(j + 1);
+                                }
+                                (Item::End, Some(j)) if j >= nrec => {}
+                                (other, Some(j)) => problem = Some(("read-after-seek".into(), format!("next() returned {:?} where record {} of {} tail records (or the end) was due", other, j, nrec))),
+                            }
+                        }
+                        1 => {
+                            let res = r.read_set(0, None);
+                            match (&res, cur) {
+                                (SetRes::Panic(m), _) => problem = Some(("panic".into(), format!("read_record_set panicked: {}", m))),
+                                (_, None) => {}
+                                (SetRes::Ok(recs), Some(j)) if j < nrec => {
+                                    let ok = !recs.is_empty() && j + recs.len() <= nrec && recs.iter().enumerate().all(|(k, g)| g.same(&rs.recs[j + k].rec));
+                                    if !ok {
+                                        problem = Some(("set-after-seek".into(), format!("read_record_set returned {:?} where the tail continues with record {}", recs, j)));
+                                    }
+                                    cur = Some(j + recs.len());
+                                }
+                                (SetRes::End, Some(j)) if j >= nrec => {}
+                                (other, Some(j)) => problem = Some(("set-after-seek".into(), format!("read_record_set returned {:?} where record {} of {} tail records (or the end) was due", other, j, nrec))),
+                            }
+                        }
+                        k => {
+                            let j = k - 2;
+                            let want = &rs.recs[j];
+                            match r.seek(want.line + dl, want.byte + db) {
+                                Ok(()) => {
+                                    l.count("seeks_behind_an_error", 1);
+                                    cur = Some(j);
+                                }
+                                Err(it) => problem = Some(("seek-failed".into(), format!("seek to tail record {} failed: {:?}", j, it))),
+                            }
+                        }
+                    }
+                    if let Some((sig, why)) = problem.take() {
+                        let names: Vec<String> = ops[..=step].iter().map(|&o| match o { 0 => "next".to_string(), 1 => "read_record_set".to_string(), k => format!("seek(tail record {})", k - 2) }).collect();
+                        l.violation(Violation {
+                            property: "C05".into(),
+                            sig: format!("{}|behind-error|{}", format.name(), sig),
+                            detail: format!("input {:?} (invalid prefix {:?}) cap {} after [{}]: {}", esc(&data), esc(prefix), cap, names.join(", "), why),
+                            weight: (data.len() * 100_000 + cap.min(99_999)) as u64 * 10 + step as u64,
+                            replay: json!({"kind": "views", "format": format.name(), "input": &**data, "input_escaped": esc(&data), "cap": cap, "ops": names}),
+                        });
+                        break;
+                    }
+                }
+                l.evals += 1;
+                l.nontrivial += 1;
+            }
+        }
+    });
+    println!("  (d) seeks behind a format error: {} inputs, {} operation sequences, {:.1}s", n_inputs, tot.evals, tot.wall_s);
+    (
+        tot,
+        format!("seeks behind a format error: {} inputs = invalid prefix (FASTA: non-header first line after 0..5 blank lines; FASTQ: record with invalid separator / unequal lengths / invalid start, LF and CRLF) + every valid record file of up to {} records, every capacity 3..len+2 and 64 KiB, ALL sequences of {} operations over {{next, read_record_set, seek(tail record j) for every j}} on the real reader from its initial state; oracle: after a seek the reads deliver the tail from record j, position() its true coordinates", n_inputs, if tier == Tier::Quick { 2 } else { 3 }, depth),
+    )
 }
 
 fn small_inputs(format: Format, tier: Tier) -> Vec<Vec<u8>> {
@@ -441,7 +573,7 @@ fn source_calls_inner(data: &[u8], env: &Env) -> usize {
 pub fn c06(tier: Tier) -> i32 {
     let mut scenarios: Vec<Scenario> = vec![];
     let mk = |alphabet: Vec<Op>| {
-        move |_rs: &RefStream, env: &Env| Scenario { data: vec![], env: env.clone(), alphabet: alphabet.clone(), positions: false, iterate_failed_sets: true, policy_clauses: false, explore_post: true, strict_after_buffer_limit: false }
+        move |_rs: &RefStream, env: &Env| Scenario { data: vec![], env: env.clone(), alphabet: alphabet.clone(), positions: false, iterate_failed_sets: true, policy_clauses: false, explore_post: true, strict_after_buffer_limit: false, post_err_fields: false }
     };
     // (a) refusing / slowly growing policies, histories continued past the error
     for &format in &[Format::Fasta, Format::Fastq] {
@@ -560,7 +692,7 @@ pub fn c14(tier: Tier) -> i32 {
                         for &kind in kinds {
                             let mut env = env0.clone();
                             env.fault = Some(Fault { at: k, kind });
-                            scenarios.push(Scenario { data: data.clone(), env, alphabet: alphabet.clone(), positions: false, iterate_failed_sets: false, policy_clauses: false, explore_post: false, strict_after_buffer_limit: false });
+                            scenarios.push(Scenario { data: data.clone(), env, alphabet: alphabet.clone(), positions: false, iterate_failed_sets: false, policy_clauses: false, explore_post: false, strict_after_buffer_limit: false, post_err_fields: false });
                             n_fault += 1;
                         }
                     }
@@ -576,7 +708,7 @@ pub fn c14(tier: Tier) -> i32 {
                         for int in pats {
                             let mut env = env0.clone();
                             env.int = int;
-                            scenarios.push(Scenario { data: data.clone(), env, alphabet: alphabet.clone(), positions: true, iterate_failed_sets: false, policy_clauses: false, explore_post: false, strict_after_buffer_limit: false });
+                            scenarios.push(Scenario { data: data.clone(), env, alphabet: alphabet.clone(), positions: true, iterate_failed_sets: false, policy_clauses: false, explore_post: false, strict_after_buffer_limit: false, post_err_fields: false });
                         }
                     }
                 }
@@ -710,7 +842,7 @@ fn c09_builtin(tier: Tier) -> Totals {
 pub fn c09(tier: Tier) -> i32 {
     let mut scenarios: Vec<Scenario> = vec![];
     let mk = |alphabet: Vec<Op>, env: &Env, data: &[u8], rs: &RefStream| {
-        let mut sc = Scenario { data: data.to_vec(), env: env.clone(), alphabet, positions: false, iterate_failed_sets: false, policy_clauses: true, explore_post: true, strict_after_buffer_limit: true };
+        let mut sc = Scenario { data: data.to_vec(), env: env.clone(), alphabet, positions: false, iterate_failed_sets: false, policy_clauses: true, explore_post: true, strict_after_buffer_limit: true, post_err_fields: false };
         let nrec = rs.recs.len();
         sc.alphabet.retain(|op| match op {
             Op::K(i) => (*i as usize) < nrec,
@@ -864,16 +996,65 @@ pub fn c17(tier: Tier) -> i32 {
                     alphabet.push(Op::K(i as u8));
                 }
             }
-            scenarios.push(Scenario { data: data.clone(), env, alphabet, positions: false, iterate_failed_sets: false, policy_clauses: false, explore_post: false, strict_after_buffer_limit: false });
+            scenarios.push(Scenario { data: data.clone(), env, alphabet, positions: false, iterate_failed_sets: false, policy_clauses: false, explore_post: false, strict_after_buffer_limit: false, post_err_fields: false });
         }
     }
     let n = scenarios.len();
+    // (c) the error of the invalid record after a transient source failure and a retry: one failure at
+    // every source call index, histories continued past it
+    for format in [Format::Fasta, Format::Fastq] {
+        let mut inputs: Vec<Vec<u8>> = vec![];
+        match format {
+            Format::Fasta => {
+                for (nb, nl) in [(0usize, "\n"), (1, "\n"), (2, "\n"), (5, "\n"), (9, "\n"), (1, "\r\n"), (3, "\r\n")] {
+                    for bad in ["x\n>a\nA\n", "id\nACGT\n", "x"] {
+                        let mut d = nl.repeat(nb).into_bytes();
+                        d.extend_from_slice(bad.as_bytes());
+                        inputs.push(d);
+                    }
+                }
+            }
+            Format::Fastq => {
+                inputs.extend(small_inputs(format, tier).into_iter().filter(|d| reference(format, d).err.is_some()));
+                for &d in FASTQ_DEFECTS.iter() {
+                    inputs.push(rf(format, &[0, 2], false, true, 0, 0, Some((0, d))).bytes());
+                }
+            }
+        }
+        inputs.sort();
+        inputs.dedup();
+        for data in inputs {
+            let rs = reference(format, &data);
+            if rs.err.is_none() {
+                continue;
+            }
+            let mut caps: Vec<usize> = (3..=8.min(data.len() + 1)).collect();
+            caps.push((data.len() + 1).max(3));
+            caps.dedup();
+            for cap in caps {
+                if tier == Tier::Quick && cap > 5 && cap % 2 == 0 {
+                    continue;
+                }
+                let chunks: &[Chunk] = if tier == Tier::Quick { &[Chunk::All] } else { &[Chunk::All, Chunk::Fixed(2)] };
+                for &chunk in chunks {
+                    let env0 = Env { format, cap, chunk, int: IntPat::None, policy: PolKind::Std, fault: None };
+                    let t = source_calls(&data, &env0) + 2;
+                    for k in 0..t {
+                        let mut env = env0.clone();
+                        env.fault = Some(Fault { at: k, kind: FaultKind::Other });
+                        scenarios.push(Scenario { data: data.clone(), env, alphabet: vec![Op::N, Op::SA, Op::E(2)], positions: false, iterate_failed_sets: false, policy_clauses: false, explore_post: true, strict_after_buffer_limit: false, post_err_fields: true });
+                    }
+                }
+            }
+        }
+    }
+    let n_c = scenarios.len() - n;
     run_hist_with(
         HistCfg {
             prop: "C17",
             tier,
             state_cap: if tier == Tier::Quick { 12000 } else { 60000 },
-            rule: format!("(a) {} ; (b) explicit-state BFS over {{next, read_record_set, seek(record i) for the first records, the last one and the invalid record}} on {} scenarios = FASTQ inputs with an invalid record (every defect kind; short and 4-10 record files) x capacity: whenever the invalid record's error is returned - after any history of reads and seeks through either seek path - all its fields (line, found byte, lengths, id) and the message must be the reference values", a_rule, n),
+            rule: format!("(a) {} ; (b) explicit-state BFS over {{next, read_record_set, seek(record i) for the first records, the last one and the invalid record}} on {} scenarios = FASTQ inputs with an invalid record (every defect kind; short and 4-10 record files) x capacity: whenever the invalid record's error is returned - after any history of reads and seeks through either seek path - all its fields (line, found byte, lengths, id) and the message must be the reference values ; (c) {} scenarios = inputs with an invalid record (FASTA: non-header first line after 0..9 blank lines LF/CRLF; FASTQ: every defect kind in the first or second record) x capacity 3..8, len+1 x ONE transient source failure at every source call index, histories over {{next, read_record_set, exact(2)}} continued past the failure: a format error returned by a later call still carries the reference fields", a_rule, n, n_c),
             scenarios,
             plain_depth: 0,
             plain_every: 1,
